@@ -133,6 +133,69 @@ CHECKS.update({
         design="DESIGN.md §3 C10"),
 })
 
+CHECKS.update({
+    "C03": dict(
+        technique="TLA+ codec model (FimCodec: schema-driven Enc/Dec of every JSON-backed value class + the maintenance record as "
+                  "a two-state machine); laws checked by TLC; TLC-generated (class, assignment) grid and maintenance histories "
+                  "executed on the real classes, every observed dictionary/outcome judged by Trace_FimCodec",
+        text="TLC checks decode(encode(v)) = v, encode(decode(encode(v))) = encode(v), empty <=> nothing set, unknown keys ignored "
+             "and the finalize discipline (FinalizedFrozen action property) on the model; every generated assignment (each field "
+             "alone, pairs, zero/false/empty values, scalar and list forms, an unknown key placed first/last) is run through "
+             "to_json/from_json/update/set_fields of the real class and compared field by field; the original object is read back "
+             "after every call.",
+        note="Values are tokens per kind (int/float/bool/str/list) - the property is about field bookkeeping, not about "
+             "float formatting; two recorded deviations (0.0 treated as unset, unknown field naming a foreign type).",
+        design="DESIGN.md §3 C03"),
+    "C11": dict(
+        technique="FimTopology extended with Attrs()/Tally() (authorization attributes and accounting summary as functions of the "
+                  "abstract slice); MC_FimAuthz enumerates a slice family x every creation order; each build is executed on the "
+                  "real API and collected from the topology, from its serialised model and tallied; judged by Trace_FimTopology",
+        text="Completeness and order-independence: for every slice of the family (VMs with and without capacities, a P4 switch, "
+             "components, facility, bridge, external service, two port-mirror services with in-slice / outside mirrored ports at the "
+             "same and at different sites) and every permutation of service creation and several node orders, the attribute map, "
+             "the decoded PDP request and the accounting summary must equal the model's tally; no other attribute keys; the same "
+             "scripts are also run back to back in one process in two orders (no state carried between collections).",
+        note="Family of 80 (quick) / ~800 (thorough) builds; lifetime/subject/project attributes (pure pass-through) not modelled.",
+        design="DESIGN.md §3 C11"),
+    "C12": dict(
+        technique="TLA+ delegation/pool model (FimDelegation): pools->nodes->pools law by TLC; generated delegation lists and pool "
+                  "layouts (duplicate ids, ids listed twice in one call, default and explicit delegations) executed on the real "
+                  "Delegations/Pools classes and judged by Trace_FimDelegation",
+        text="TLC checks that regrouping pool definitions by node and building pools back is the identity and that encoding is "
+             "canonical; every generated case is executed (encode, decode, regroup, validate) and compared with the model incl. "
+             "the rejection of inconsistent pools.",
+        note="Delegation details are opaque tokens; up to 3 pools x 3 nodes.",
+        design="DESIGN.md §3 C12"),
+    "C13": dict(
+        technique="TLA+ constructive definition of partitioning (FimADM) with the soundness clauses as TLC invariants over a family of "
+                  "small aggregate models; every family member (+ the repository's advertisement files) partitioned by the real "
+                  "generate_adms, projected models judged clause by clause by Trace_FimADM",
+        text="For each aggregate model of the family x delegation layout TLC computes the expected per-delegation models; the real "
+             "ADMs must contain exactly the delegated elements plus their context (interface keeps owner chain), carry only their "
+             "own delegation, keep ids, and together cover the aggregate; the original model must be unchanged.",
+        note="Family: <=4 nodes with components/services/interfaces/links, 2 delegation ids, default + explicit delegations.",
+        design="DESIGN.md §3 C13"),
+    "C14": dict(
+        technique="TLA+ combined-model machine (FimCBM: merge/unmerge/snapshot/rollback with provenance) model-checked (order "
+                  "independence, unmerge inverse, provenance exact); TLC-generated merge/unmerge/snapshot histories executed on the "
+                  "real merge code over the in-memory store and judged by Trace_FimCBM",
+        text="TLC checks on the model that any merge order yields the same combined model, unmerge removes exactly the "
+             "contribution and snapshot/rollback restores; every history of the bound is run through merge_adm/unmerge_adm/"
+             "snapshot/rollback of the real class (Neo4j query layer replaced by the in-memory store through the abstract "
+             "interface) and the decoded combined model compared at every step.",
+        note="The Cypher-only helpers of Neo4jCBMGraph are C19's; one recorded deviation (connections carry no provenance).",
+        design="DESIGN.md §3 C14"),
+    "C17": dict(
+        technique="TLA+ sliver-difference model (FimSliverDiff: added/removed/modified as set algebra over named children and "
+                  "property maps); laws by TLC (diff(a,a) empty, antisymmetry, exactness); generated sliver pairs built with the "
+                  "real sliver classes and diffed, result judged by Trace_FimSliverDiff",
+        text="For every pair of slivers of the bound (nodes with components, services, interfaces; property edits of each "
+             "comparable property) the real diff() must report exactly the model's added / removed / modified sets with the "
+             "right flags, nothing for identical copies, and the mirror image when the arguments are swapped.",
+        note="Up to 2 components x 2 services x 2 interfaces per sliver; property values are tokens.",
+        design="DESIGN.md §3 C17"),
+})
+
 PENDING = {}
 
 
